@@ -147,6 +147,8 @@ def run(ctx, rep):
                         logic=s.lg.name, rule=s.rc.name, direction=d, valuation=v)
     RL = rep.rule('C11.R4', 'a rule stops offering targets because of a world / constant limit only in states where a quit flag is put on the branch (limit predicates and guarded target producers folded below / at / above the limit): an open branch cut short by a limit is never limit-free')
     common.limit_guards(ctx, rep, RL, 'C11.R4')
+    RF = rep.rule('C11.R5', 'no starvation behind the fairness gate (the C02.R8 fold): whenever some node still has an accessible world it was not applied to, the box-type rules offer a target -- an unsaturated open branch would make the verdict depend on which logic of a declared pair runs the proof (valid in the weaker, refuted in the stronger)')
+    common.fair_gate(ctx, rep, RF, 'C11.R5')
 
 
 def formulas(ops, arity, depth, letters=('p', 'q')):
